@@ -250,6 +250,29 @@ func (in *objIndex) control() error {
 	return nil
 }
 
+// describes returns an error if in is not the index
+// of the fields indexed according to their descriptors
+func (in *objIndex) describes(fields FieldDescMap) error {
+	n := 0
+	for _, fd := range fields {
+		if !fd.Constraints.Index && !fd.Constraints.Unique {
+			continue
+		}
+		n++
+		fi, ok := in.Fields[fd.Path]
+		if !ok {
+			return fmt.Errorf("field %s has no index", fd.Path)
+		}
+		if cast, ok := fd.castable(); !ok || fi.Cast != cast || fi.Name != fd.Path {
+			return fmt.Errorf("index of field %s does not match field descriptor", fd.Path)
+		}
+	}
+	if n != len(in.Fields) {
+		return fmt.Errorf("%d fields must be indexed, %d are", n, len(in.Fields))
+	}
+	return nil
+}
+
 func (in *objIndex) len() int {
 	return len(in.ObjectIds)
 }
